@@ -385,4 +385,146 @@ def consolidate : List (Block α) → List (Block α)
       else b :: r :: rs
 
 end TB
+
+/-! ### the incrementally maintained caches of a growing TypeBlocks
+
+`TypeBlocks` keeps `_shape`, `_index`, `_dtypes` and `_row_dtype` next to `_blocks`; `from_blocks` /
+`__init__` compute them once, `append` / `extend` update them in place (FrameGO grows this way).
+`Caches` is that bookkeeping, `Grown` the whole mutable object; the theorems (Props/C03.lean) say the
+incrementally kept values equal the values recomputed from the final block list, and state what the
+kept row dtype is.  dtype resolution (`util.resolve_dtype`, modelled in DType.lean) is a PARAMETER
+`resolve` here: the two routes use it differently (`__init__` folds it over the blocks, `append`
+does not use it at all). -/
+
+/-- token of `DTYPE_OBJECT` (the harness's `dtype_tok(np.dtype(object))`) -/
+def objectDT : DT := "O8"
+
+structure Caches where
+  shape : Nat × Nat              -- `_shape`
+  index : List (Nat × Nat)       -- `_index`
+  dtypes : List DT               -- `_dtypes`
+  rowDtype : Option DT           -- `_row_dtype` (`None` while no block is stored)
+deriving Repr, DecidableEq, Inhabited
+
+namespace Caches
+variable {α : Type}
+
+/-- `util.resolve_dtype_iter`: pairwise resolution from the left, returning at the first `object`. -/
+def resolveIter (resolve : DT → DT → DT) : DT → List DT → DT
+  | acc, [] => acc
+  | acc, d :: ds =>
+    let r := resolve acc d
+    if r = objectDT then r else resolveIter resolve r ds
+
+/-- `__init__`: `resolve_dtype_iter(b.dtype for b in self._blocks)` when a block is stored, else `None`. -/
+def initRowDtype (resolve : DT → DT → DT) : List (Block α) → Option DT
+  | [] => none
+  | b :: bs => some (resolveIter resolve b.dt (bs.map Block.dt))
+
+/-- the statements shared by `from_blocks` and `append` for one STORED block with number `blockIdx`:
+    `for i in range(c): index.append((blockIdx, i)); dtypes.append(block.dtype)` and the column count. -/
+def push (c : Caches) (blockIdx : Nat) (b : Block α) : Caches :=
+  { c with
+    shape := (c.shape.1, c.shape.2 + b.width)
+    index := c.index ++ (List.range b.width).map (fun i => (blockIdx, i))
+    dtypes := c.dtypes ++ List.replicate b.width b.dt }
+
+/-- the loop of `from_blocks` over the raw blocks (`if c == 0: continue`; `block_count += 1`). -/
+def ofBlocksGo : List (Block α) → Nat → Caches → Caches
+  | [], _, c => c
+  | b :: rest, blockCount, c =>
+    if b.width = 0 then ofBlocksGo rest blockCount c
+    else ofBlocksGo rest (blockCount + 1) (c.push blockCount b)
+
+/-- what `from_blocks(raw_blocks)` + `__init__` set, given the row count `from_blocks` determined
+    (`TB.fromBlocks` models the row-count checks). -/
+def ofBlocks (resolve : DT → DT → DT) (rows : Nat) (bs : List (Block α)) : Caches :=
+  { ofBlocksGo bs 0 ⟨(rows, 0), [], [], none⟩ with
+    rowDtype := initRowDtype resolve (bs.filter (fun b => 0 < b.width)) }
+
+/-- the `_row_dtype` rule of `append`: set on the first stored block; `object` as soon as a block
+    of a DIFFERENT dtype arrives ("we do not use resolve_dtype here as we want to preserve types"). -/
+def appendRowDtype (rd : Option DT) (d : DT) : Option DT :=
+  match rd with
+  | none => some d
+  | some r => if d ≠ r then some objectDT else some r
+
+/-- `TypeBlocks.append(block)` on the caches; `nblocks = len(self._blocks)` before the call.
+    (A 2-D block of width 0 has no modelled row count, as in `TB.append`: it is not appended.) -/
+def append (c : Caches) (nblocks : Nat) (b : Block α) : Except Err Caches :=
+  let stored : Caches := { c.push nblocks b with rowDtype := appendRowDtype c.rowDtype b.dt }
+  match b with
+  | .d1 _ col => if col.length ≠ c.shape.1 then .error .shape else .ok stored
+  | .d2 _ [] => .ok c
+  | .d2 _ (col :: cs) =>
+    if col.length ≠ c.shape.1 ∨ ¬ (∀ x ∈ cs, x.length = col.length) then .error .shape
+    else .ok stored
+
+end Caches
+
+/-- the mutable object: blocks with their caches -/
+structure Grown (α : Type) where
+  tb : TB α
+  caches : Caches
+deriving Repr, DecidableEq, Inhabited
+
+/-- one growth call -/
+inductive CacheOp (α : Type) where
+  | append (b : Block α)                  -- `tb.append(array)`
+  | extendIter (bs : List (Block α))      -- `tb.extend(iterable of arrays)`
+  | extend (o : TB α)                     -- `tb.extend(other TypeBlocks)`
+deriving Repr
+
+namespace Grown
+variable {α : Type}
+
+/-- `TypeBlocks.from_blocks(raw_blocks, shape_reference)` with its caches -/
+def ofBlocks (resolve : DT → DT → DT) (bs : List (Block α)) (shapeRef : Option Nat) : Except Err (Grown α) :=
+  match TB.fromBlocks bs shapeRef with
+  | .error e => .error e
+  | .ok tb => .ok ⟨tb, Caches.ofBlocks resolve tb.rows bs⟩
+
+/-- `TypeBlocks.from_zero_size_shape((rows, 0))` / `cls(blocks=[], dtypes=[], index=[], shape=...)`:
+    what an empty `FrameGO(index=...)` starts from -/
+def empty (rows : Nat) : Grown α := ⟨⟨rows, []⟩, ⟨(rows, 0), [], [], none⟩⟩
+
+/-- `append`: the check reads `_shape`; the block is stored unless it is a zero-width 2-D block -/
+def append (g : Grown α) (b : Block α) : Except Err (Grown α) :=
+  match g.caches.append g.tb.blocks.length b with
+  | .error e => .error e
+  | .ok c => .ok ⟨{ g.tb with blocks := if b.width = 0 then g.tb.blocks else g.tb.blocks ++ [b] }, c⟩
+
+/-- `extend(iterable)`: `for block in blocks: self.append(block)` — NOT atomic: an exception leaves
+    the blocks appended before it -/
+def extendIter : Grown α → List (Block α) → Grown α × Option Err
+  | g, [] => (g, none)
+  | g, b :: bs =>
+    match g.append b with
+    | .error e => (g, some e)
+    | .ok g' => extendIter g' bs
+
+/-- `extend(other: TypeBlocks)`: the up-front check is skipped when `self` has no rows -/
+def extend (g : Grown α) (o : TB α) : Grown α × Option Err :=
+  if g.caches.shape.1 ≠ 0 ∧ g.caches.shape.1 ≠ o.rows then (g, some .shape)
+  else g.extendIter o.blocks
+
+def step (g : Grown α) : CacheOp α → Grown α × Option Err
+  | .append b => match g.append b with | .error e => (g, some e) | .ok g' => (g', none)
+  | .extendIter bs => g.extendIter bs
+  | .extend o => g.extend o
+
+/-- a history of growth calls; a raising call leaves what it had already done and the caller goes on -/
+def run (g : Grown α) (ops : List (CacheOp α)) : Grown α := ops.foldl (fun g op => (g.step op).1) g
+
+/-- the outcomes of the calls of a history (for the correspondence) -/
+def runErrs : Grown α → List (CacheOp α) → List (Option Err)
+  | _, [] => []
+  | g, op :: ops => (g.step op).2 :: runErrs (g.step op).1 ops
+
+/-- the caches describe the blocks: what a recomputation from `_blocks` would give -/
+def Coherent (g : Grown α) : Prop :=
+  g.caches.shape = (g.tb.rows, g.tb.ncols) ∧ g.caches.index = g.tb.index ∧ g.caches.dtypes = g.tb.dtypes
+
+end Grown
+
 end SF
